@@ -22,7 +22,7 @@ from typing import Any
 import z3
 
 from engine import smtgen, symx
-from . import common
+from . import chrun, common
 
 STATE_NAMES = ["launch", "boot.v2", "with-dash"]
 
@@ -421,3 +421,5 @@ def run(ctx: common.Context) -> None:
         "(b) the live compiled regexes translated to z3 regular expressions and compared with the qemu-img row grammar by "
         "emptiness queries (unsat = holds for every row of the grammar) and a decomposition query for the extracted tag"
     )
+    if ctx.thorough:
+        chrun.run_crosshair(ctx, "ch_c17.py", per_condition_timeout=60)
